@@ -155,6 +155,16 @@ CLAIMED = {
         "No Lua interpreter is installed: behaviour is relative to the emulator (Lua 5.3 semantics for the API subset wrapl.py emits). Four defect classes are known findings.",
         "DESIGN.md section 3 C18",
     ),
+    "C03": (
+        "exhaustive enumeration of functions from the numpy-free atom rows x call plans x positional/keyword split points x omitted defaults x wrong-type menus, executed in a child CPython importing the compiled extension; reference-model equality of returns and per-call RECV trace",
+        "Every argument and result atom of the numpy-free subset alone and in ordered pairs, language c and c++, is wrapped by the real shroud with PY_array_arg=list, compiled as a "
+        "CPython 3.12 extension and imported by a child interpreter. For each call plan every split point between positional and keyword arguments, every number of omitted trailing "
+        "defaults, each argument position with each value of a wrong-type menu, and extra / missing / unknown-keyword calls are performed (5k calls quick, 18k thorough). The returned "
+        "object(s) (result followed by out/inout arguments, single object or tuple) and, call by call, what the library received must equal the model; refused calls must raise "
+        "TypeError/ValueError without reaching the library; the caller's own argument objects must be unchanged.",
+        "CPython 3.12 only. Functions that do not build are C05's subject. Four defect classes are known findings.",
+        "DESIGN.md section 3 C03",
+    ),
 }
 
 PENDING_REASON = "check not built yet in this round (planned, see DESIGN.md section 8); not claimed until it runs"
